@@ -173,15 +173,26 @@ def run(inp):
     init = inp["init"]
     out = {"init": None, "steps": []}
     try:
-        kw = canon.atts_dict(tuple(init[3])) if init[0] == "new" else canon.atts_dict(tuple(init[3]))
+        kw = canon.atts_dict(tuple(init[3]))
+        pos = []
+        if (init[3][0] + init[3][1] + len(inp["ops"])) % 2:
+            # the same formatting spelt positionally: colour names and style names instead of keywords
+            if "fg" in kw:
+                pos.append(canon.COLORS[kw.pop("fg") - 30])
+            if "bg" in kw:
+                pos.append("on_" + canon.COLORS[kw.pop("bg") - 40])
+            for st in canon.STYLES:
+                if kw.get(st) is True:
+                    pos.append(st)
+                    del kw[st]
         if init[0] == "new":
-            a = FSArray(init[1], init[2], **kw)
+            a = FSArray(init[1], init[2], *pos, **kw)
         else:
             args = [[build_val(s) for s in init[1]]]
             if init[2] is not None:
-                a = fsarray(args[0], init[2], **kw)
+                a = fsarray(args[0], init[2], *pos, **kw)
             else:
-                a = fsarray(args[0], **kw)
+                a = fsarray(args[0], None, *pos, **kw) if pos else fsarray(args[0], **kw)
         out["init"] = ["ok", snapshot(a), a.num_columns] if shape_ok(a) else ["raise", "OtherError"]
     except Exception as e:
         out["init"] = ["raise", canon.exn_name(e)]
